@@ -176,7 +176,6 @@ static Out run_seq(Scn const &sc, int start, std::vector<int> const &ops, bool s
     int rc = r.px->step(r.next);
     r.next++;
     o.steprc[k] = rc;
-    if (rc != 0 && getenv("C20_DEBUG")) { FILE *f = fopen("/tmp/c20_probe/steperr.txt", "a"); if (f) { std::string e = r.px->errtxt.size() > 200 ? r.px->errtxt.substr(r.px->errtxt.size() - 200) : r.px->errtxt; for (char &ch : e) if (ch == '\n') ch = '|'; fprintf(f, "%s\n", e.c_str()); fclose(f); } }
     o.rec += "step rc " + std::to_string(rc) + "\n" + observe(*r.px);
     if (o.listp.empty()) o.listp = list_problem(*r.px);
     if (script && sc.id == "A" && rc == 0) {
